@@ -943,6 +943,11 @@ pub fn run_c13(args: &Args, model: &mut Model) -> Report {
         let c = c13_gen(&mut p, args.thorough);
         c13_check(&c, model, &mut rep, &format!("gen seed={} index={}", args.seed, i));
         registry_clear();
+        // a platform that loses or wedges events makes every case wait for its time-out: enough is enough
+        if rep.oracle_failures.len() >= 25 || rep.disagreements.len() >= 40 {
+            rep.count("stopped_early_after_many_failures");
+            break;
+        }
     }
     // the string constants of the model are the crate's
     let consts = model.ask("route consts");
